@@ -21,6 +21,7 @@ Driver of the C15 models.  Ops (component `c15`):
   rsnap <now>                   → <count> <sum> <retained> <sorted retained samples> <min()> <max()>
   rsnapc <now>                  → <count> <sum> <retained> <quantile token: zero|some>
   rsnapq <now>                  → <count> <sum> <quantile token>   (what a rendered summary shows)
+  guard <buckets|metric|quantiles|duration> <n> → ok | err   the builder's guards: a slice of length n / a duration of n ns
   dist <global|~> <calls> <name>→ <type> histogram:<bounds> | <type> summary
 Values: `nan`, `ninf`, `pinf` or an integer.
 -/
@@ -139,6 +140,15 @@ def handle (st : St) (args : List String) : Option (St × String) :=
       | .zero => "zero"
       | .within _ => "some"
     pure (st, s!"{count} {showFV sum} {qs}")
+  | ["guard", which, n] => do
+    let n ← n.toNat?
+    match which with
+    | "buckets" => pure (st, if (DistBuilder.setBucketsChecked (List.replicate n 0)).isSome then "ok" else "err")
+    | "metric" =>
+      pure (st, if (DistBuilder.setBucketsForMetricChecked [] (.full []) (List.replicate n 0)).isSome then "ok" else "err")
+    | "quantiles" => pure (st, if DistBuilder.guardNonEmpty n then "ok" else "err")
+    | "duration" => pure (st, if DistBuilder.guardDuration n then "ok" else "err")
+    | _ => none
   | ["dist", global, calls, name] => do
     let global ← optTok (fun s => (s.splitOn "+").mapM Prom.intTok?) global
     let calls ← listTok Prom.matcherTok calls
